@@ -400,15 +400,19 @@ func TestVerif_C03_Access(t *testing.T) {
 			case "DocConflict":
 				ds := docs[st.D]
 				c1 := ds.chain[1]
-				if len(c1) < 2 {
-					fatal(bi, si, "DocConflict needs generation >= 2", nil)
+				if len(c1) < 1 {
+					fatal(bi, si, "DocConflict on a missing document", nil)
 				}
-				dig := "00"
+				dig := "00" // lower than any md5 digest; "zz" is higher
 				if st.Hi {
 					dig = "zz"
 				}
-				newRev := fmt.Sprintf("%d-%s", len(c1), dig) // sibling of the leaf of branch 1
-				_, rev, err := col.PutExistingRevWithBody(ctx, real(st.D), bodyOf(st.G), []string{newRev, c1[len(c1)-2]}, false, ExistingVersionWithUpdateToHLV)
+				newRev := fmt.Sprintf("%d-%s", len(c1), dig) // sibling of the leaf of branch 1 (a second root at generation 1)
+				history := []string{newRev}
+				if len(c1) >= 2 {
+					history = append(history, c1[len(c1)-2])
+				}
+				_, rev, err := col.PutExistingRevWithBody(ctx, real(st.D), bodyOf(st.G), history, false, ExistingVersionWithUpdateToHLV)
 				if err != nil || rev != newRev {
 					fatal(bi, si, "PutExistingRevWithBody", fmt.Errorf("%v (rev %s)", err, rev))
 				}
